@@ -84,6 +84,13 @@ def make_tree(root, r, huge=False):
         p = os.path.join(r.choice(dirs), "sl%d" % i)
         if not os.path.lexists(p):
             os.symlink(tgt, p)
+            if i in (1, 4):
+                # a symbolic link with a second name: a hard-link group like any other
+                q = os.path.join(r.choice(dirs), "sl%d_second_name" % i)
+                try:
+                    os.link(p, q, follow_symlinks=False)
+                except OSError:
+                    pass
     for i in range(r.randint(0, 3)):
         if files:
             p = os.path.join(r.choice(dirs), "hard%d" % i)
